@@ -235,9 +235,15 @@ class CallMixin:
             result = ctx.fresh_val('res_' + fi.node.name, rk)
         env2 = dict(env)
         env2['result'] = result
-        if ctx.generic_depth == 0:
-            for name, clause in con.posts:
-                path.assume(self.eval_clause(con, clause, env2, path))
+        if ctx.generic_depth == 0 and fi.fid not in ctx.applying and ctx.spec_mode == 0:
+            # the remaining clauses are assumed at code-level call sites (not while evaluating specification text,
+            # where only the functional value is needed; this also cuts clauses that mention the function itself)
+            ctx.applying.add(fi.fid)
+            try:
+                for name, clause in con.posts:
+                    path.assume(self.eval_clause(con, clause, env2, path))
+            finally:
+                ctx.applying.discard(fi.fid)
         return [(result, path)]
 
     def eval_clause_val(self, con, fnode, env, path):
